@@ -393,11 +393,18 @@ func TestVX_daemonChild(t *testing.T) {
 		}
 		for _, f := range job.Faults {
 			f := f
-			go func() {
-				start := firstCycle + time.Duration(f.Window)*vxTick - vxTick/2 + 31*time.Microsecond
-				time.Sleep(start)
+			start := firstCycle + time.Duration(f.Window)*vxTick - vxTick/2 + 31*time.Microsecond
+			if start <= 0 {
+				// a fault that is present when the daemon starts (first reads of initializeSensors / Run)
 				active[f.Component] = f.Kind
 				setCmdModes()
+			}
+			go func() {
+				if start > 0 {
+					time.Sleep(start)
+					active[f.Component] = f.Kind
+					setCmdModes()
+				}
 				if f.Persist {
 					return
 				}
